@@ -66,7 +66,7 @@ FILE_CLASSES = ["one", "one_str", "one_path", "several", "dup", "two_dirs", "mis
                 "symlink_one", "symlinks_two_targets", "real_plus_link_elsewhere", "relative"]
 TWO_DIRS = ("two_dirs", "real_plus_link_elsewhere")
 OUTDIR_KINDS = ["given", "none", "missing_dir"]
-IMAGE_SOURCES = ["dataset_default", "dataset_custom", "md_one", "md_two", "md_first_in_chain"]
+IMAGE_SOURCES = ["dataset_default", "dataset_custom", "md_one", "md_two", "md_first_in_chain", "md_aba", "md_same_twice", "md_registry_port"]
 CHUNK_POOL = [["stdout", "building\n"], ["stderr", "warning: something\n"], ["stdout", ""], ["stdout", "line1\nline2\nline3\n"],
               ["stderr", "café ✓\n"], ["stdout", "x" * 300 + "\n"]]
 BIG = ["stdout", "BIG:450000"]  # a chatty job: 450 kB in one chunk
@@ -602,13 +602,24 @@ def _child(case):
         all_images = [expected_image]
         s = ds
         mds = []
-        if op["image"] in ("md_one", "md_two", "md_first_in_chain"):
+        if op["image"] in ("md_one", "md_two", "md_first_in_chain", "md_aba", "md_same_twice", "md_registry_port"):
             if op["image"] == "md_two":
                 mds.append({"metadata_type": "docker", "image": f"md/first-{tag}:x"})
-            mds.append({"metadata_type": "docker", "image": f"md/chosen-{tag}:y"})
-            # which of two docker metadata wins is not stated by the property: either is accepted
-            expected_image = [m["image"] for m in mds]
-            all_images += expected_image
+            if op["image"] == "md_registry_port":
+                # a registry host with a port, and a digest instead of a tag: the name must reach docker untouched
+                mds.append({"metadata_type": "docker", "image": f"registry.example:5000/md/chosen-{tag}@sha256:{'ab' * 32}"})
+            else:
+                mds.append({"metadata_type": "docker", "image": f"md/chosen-{tag}:y"})
+            if op["image"] == "md_aba":
+                # the same image asked for first and last, another one in between
+                mds.insert(1, {"metadata_type": "docker", "image": f"md/between-{tag}:z"})
+                mds.append(dict(mds[0]))
+            if op["image"] == "md_same_twice":
+                mds.append(dict(mds[0]))
+            # which of several docker metadata wins is not stated by the property; every sensible rule is positional, so
+            # the outermost and the innermost are accepted (when both name the same image, only that one)
+            expected_image = sorted({mds[0]["image"], mds[-1]["image"]})
+            all_images += sorted({m["image"] for m in mds})
         steps = [list(x) for x in QUERY[op["backend"]]]
         extra = [{"metadata_type": "add_job_script", "name": f"js{k}", "script": [f"# js {k}"], "depends_on": []}
                  for k in range(op.get("md_extra", 0))]
